@@ -1,11 +1,10 @@
-(* Log - theorems (C12).  Stdlib style.
+(* Log - theorems (C12) about the REPAIRED code (8880f0d, f5eca82).  Stdlib style.
 
-   Plan.  For ONE attempt (no retry happened) the heap of files / descriptors / bufio writers is fixed by the
-   configuration; every reachable state is `mk c k` for a small tuple k of byte sequences (file contents, buffer
-   contents, pipe).  `step_chunk` shows by computation that the model's step on such a state is `simple_step` on
-   the tuple; the properties are then proved about `simple_step` by list reasoning with the invariant
-        file ++ buffered = bytes accepted          (and: buffered fits the buffer, pipe slots are well formed)
-   and teardown flushes what is buffered. *)
+   Symbolic reasoning about the heap of files / descriptors / bufio writers, for any configuration and any number
+   of attempts:
+     running j s L ...   while attempt j runs, every sink (a bufio writer on an open descriptor of a path) satisfies
+                             file ++ buffered = bytes accepted      and      buffered <= 4096
+     idle j s ...        between attempts: teardown has flushed what was buffered, the files hold everything. *)
 From Coq Require Import List Bool Arith NArith Lia.
 Import ListNotations.
 From BD.Log Require Import Model.
@@ -14,21 +13,34 @@ Definition mkc (a b c d : bool) : cfg := {| c_stdout := a; c_stderr := b; c_outp
 
 Lemma BUFSZ_pos : 0 < BUFSZ.
 Proof. unfold BUFSZ. lia. Qed.
-Lemma PAGE_pos : 0 < PAGE.
-Proof. unfold PAGE. lia. Qed.
-Lemma HALFPIPE_eq : HALFPIPE = 8 * PAGE.
-Proof. reflexivity. Qed.
-Lemma NSLOTS_eq : NSLOTS = 16.
-Proof. reflexivity. Qed.
 
-Global Opaque BUFSZ PAGE HALFPIPE.
+Global Opaque BUFSZ.
 
 Section Proofs.
 Variable A : Type.
 Notation bytes := (list A).
 
 (* ---------------------------------------------------------------------------------------------------- *)
-(* bufio.Write on a (file, buffer) pair                                                                   *)
+(* finite maps                                                                                            *)
+(* ---------------------------------------------------------------------------------------------------- *)
+Lemma mget_mset_same {X} (d : X) m k v : mget d (mset m k v) k = v.
+Proof.
+  induction m as [|[k' v'] m IH]; cbn; [now rewrite Nat.eqb_refl|].
+  destruct (k =? k') eqn:E; cbn; [now rewrite Nat.eqb_refl | now rewrite E].
+Qed.
+Lemma mget_mset_other {X} (d : X) m k k2 v : k2 <> k -> mget d (mset m k v) k2 = mget d m k2.
+Proof.
+  intros Hn. induction m as [|[k' v'] m IH]; cbn.
+  - destruct (k2 =? k) eqn:E; [apply Nat.eqb_eq in E; contradiction | reflexivity].
+  - destruct (k =? k') eqn:E; cbn.
+    + apply Nat.eqb_eq in E. subst k'. destruct (k2 =? k) eqn:E2; [apply Nat.eqb_eq in E2; contradiction | reflexivity].
+    + destruct (k2 =? k'); [reflexivity | exact IH].
+Qed.
+Lemma mget_mset_self {X} (d : X) m k q : mget d (mset m k (mget d m k)) q = mget d m q.
+Proof. destruct (Nat.eq_dec q k) as [->|Hn]; [apply mget_mset_same | now apply mget_mset_other]. Qed.
+
+(* ---------------------------------------------------------------------------------------------------- *)
+(* bufio.Write / ReadFrom on a (file, buffer) pair                                                        *)
 (* ---------------------------------------------------------------------------------------------------- *)
 Definition bwp (file bf p : bytes) : bytes * bytes :=
   if length p <=? BUFSZ - length bf then (file, bf ++ p)
@@ -38,10 +50,6 @@ Definition bwp (file bf p : bytes) : bytes * bytes :=
               then (file ++ (bf ++ firstn (BUFSZ - length bf) p), skipn (BUFSZ - length bf) p)
               else ((file ++ (bf ++ firstn (BUFSZ - length bf) p)) ++ skipn (BUFSZ - length bf) p, [])
        end.
-
-(* ReadFrom, one chunk *)
-Definition rfp (file bf p : bytes) : bytes * bytes :=
-  match bf with [] => (file ++ p, []) | _ => bwp file bf p end.
 
 Lemma bwp_spec file bf p : length bf <= BUFSZ ->
   fst (bwp file bf p) ++ snd (bwp file bf p) = file ++ bf ++ p /\ length (snd (bwp file bf p)) <= BUFSZ.
@@ -58,423 +66,582 @@ Proof.
       * split; [|cbn; lia]. rewrite app_nil_r, <- !app_assoc. now rewrite (firstn_skipn n p).
 Qed.
 
-Lemma rfp_spec file bf p : length bf <= BUFSZ ->
-  fst (rfp file bf p) ++ snd (rfp file bf p) = file ++ bf ++ p /\ length (snd (rfp file bf p)) <= BUFSZ.
-Proof.
-  intros Hb. unfold rfp. destruct bf as [|b0 bf'].
-  - cbn [fst snd]. split; [now rewrite app_nil_r | cbn; lia].
-  - now apply bwp_spec.
-Qed.
-
-Lemma rfp_empty file p : rfp file [] p = (file ++ p, []).
-Proof. reflexivity. Qed.
-
 (* ---------------------------------------------------------------------------------------------------- *)
-(* The pipe: slots stay well formed, and half a pipe always fits                                          *)
+(* frames                                                                                                 *)
 (* ---------------------------------------------------------------------------------------------------- *)
-Fixpoint adj (l : list nat) : Prop :=
-  match l with a :: ((b :: _) as t) => PAGE < a + b /\ adj t | _ => True end.
-Definition slots_inv (l : list nat) : Prop := Forall (fun x => 1 <= x <= PAGE) l /\ adj l.
-Definition sum (l : list nat) : nat := fold_right Nat.add 0 l.
+(* everything of the state that file / writer operations never touch *)
+Definition core (s : st A) :=
+  (nd A s, w_out A s, w_err A s, shared A s, brk_o A s, brk_e A s, logpath A s, outvar A s, nfd A s, nbuf A s).
 
-Lemma adj_tl a l : adj (a :: l) -> adj l.
-Proof. destruct l as [|b l]; [trivial | now intros [_ H]]. Qed.
+(* a sink: bufio writer b with content bf on the open descriptor f of `path` *)
+Definition sink (s : st A) (b f path : nat) (bf : bytes) : Prop :=
+  buf A s b = {| bw_buf := bf; bw_fd := f; bw_err := false |} /\ fdd A s f = {| fd_path := path; fd_closed := false |}.
 
-Lemma adj_cons a l : (match l with [] => True | b :: _ => PAGE < a + b end) -> adj l -> adj (a :: l).
-Proof. destruct l as [|b l]; [trivial | now split]. Qed.
+(* s' differs from s at most in the content of `path` and in writer b *)
+Definition frame (s s' : st A) (b path : nat) : Prop :=
+  (forall q, q <> path -> dsk A s' q = dsk A s q) /\ (forall b', b' <> b -> buf A s' b' = buf A s b') /\
+  (forall f', fdd A s' f' = fdd A s f') /\ core s' = core s /\ capbuf A s' = capbuf A s.
 
-Lemma adj_pages q l : adj l -> (match l with [] => True | b :: _ => 1 <= b end) -> adj (repeat PAGE q ++ l).
+Lemma frame_sink s s' b path b2 f2 path2 bf2 : frame s s' b path -> b2 <> b -> sink s b2 f2 path2 bf2 -> sink s' b2 f2 path2 bf2.
+Proof. intros (_ & Hb & Hf & _) Hn [H1 H2]. split; [now rewrite Hb | now rewrite Hf]. Qed.
+
+Lemma raw_spec s b f path bf p keep : sink s b f path bf ->
+  exists s', bw_raw A s b p keep = (s', true) /\ dsk A s' path = dsk A s path ++ p /\ sink s' b f path keep /\ frame s s' b path.
 Proof.
-  intros Hl Hb. induction q as [|q IH]; [exact Hl|].
-  cbn [repeat app]. apply adj_cons; [|exact IH].
-  destruct q as [|q]; cbn [repeat app].
-  - destruct l as [|b l]; [trivial | lia].
-  - pose proof PAGE_pos. lia.
+  intros [Hb Hf]. unfold bw_raw, fd_write. rewrite Hb. cbn [bw_fd]. rewrite Hf. cbn [fd_closed fd_path].
+  eexists. split; [reflexivity|].
+  unfold sink, frame, dsk, buf, fdd, core, put_buf, set_bufs, set_disk. cbn.
+  split; [apply mget_mset_same|]. split; [split; [apply mget_mset_same | exact Hf]|].
+  repeat split; try reflexivity.
+  - intros q Hq. now apply mget_mset_other.
+  - intros b' Hb'. now apply mget_mset_other.
 Qed.
 
-Lemma forall_pages q : Forall (fun x => 1 <= x <= PAGE) (repeat PAGE q).
-Proof. pose proof PAGE_pos. induction q; cbn; constructor; [lia | assumption]. Qed.
-
-Lemma sum_cons x l : sum (x :: l) = x + sum l.
-Proof. reflexivity. Qed.
-Lemma sum_app a b : sum (a ++ b) = sum a + sum b.
-Proof. induction a as [|x a IH]; [reflexivity|]. cbn [app]. rewrite !sum_cons, IH. lia. Qed.
-Lemma sum_pages q : sum (repeat PAGE q) = PAGE * q.
-Proof. induction q as [|q IH]; [cbn; lia|]. cbn [repeat]. rewrite sum_cons, IH. lia. Qed.
-
-(* each adjacent pair of slots holds more than a page *)
-Lemma pairs_bound : forall n l, length l <= n -> adj l -> (PAGE + 1) * (length l / 2) <= sum l.
+Lemma put_spec s b f path bf bf' : sink s b f path bf ->
+  sink (put_buf A s b {| bw_buf := bf'; bw_fd := f; bw_err := false |}) b f path bf' /\
+  dsk A (put_buf A s b {| bw_buf := bf'; bw_fd := f; bw_err := false |}) path = dsk A s path /\
+  frame s (put_buf A s b {| bw_buf := bf'; bw_fd := f; bw_err := false |}) b path.
 Proof.
-  induction n as [|n IH]; intros l Hn Ha.
-  - destruct l; [cbn; lia | cbn in Hn; lia].
-  - destruct l as [|a [|b r]]; [cbn; lia | cbn; lia |].
-    destruct Ha as [Hab Ha]. apply adj_tl in Ha.
-    assert (Hr : length r <= n) by (cbn in Hn; lia).
-    specialize (IH r Hr Ha).
-    replace (length (a :: b :: r)) with (length r + 1 * 2) by (cbn; lia).
-    rewrite Nat.div_add by lia. rewrite !sum_cons. lia.
+  intros [Hb Hf]. unfold sink, frame, dsk, buf, fdd, core, put_buf, set_bufs. cbn.
+  split; [split; [apply mget_mset_same | exact Hf]|]. split; [reflexivity|].
+  repeat split; try reflexivity. intros b' Hb'. now apply mget_mset_other.
 Qed.
 
-Definition put_result (slots : list nat) (n : nat) : list nat :=
-  let chars := n mod PAGE in
-  let '(slots1, rest) :=
-    match slots with
-    | l :: r => if (0 <? chars) && (l + chars <=? PAGE) then ((l + chars) :: r, n - chars) else (slots, n)
-    | [] => (slots, n)
-    end in
-  (if rest mod PAGE =? 0 then [] else [rest mod PAGE]) ++ repeat PAGE (rest / PAGE) ++ slots1.
-
-Lemma pipe_put_unfold slots n : 0 < n ->
-  pipe_put slots n = if length (put_result slots n) <=? NSLOTS then Some (put_result slots n) else None.
+Lemma frame_trans s s1 s2 b path : frame s s1 b path -> frame s1 s2 b path -> frame s s2 b path.
 Proof.
-  intros Hn. unfold pipe_put, put_result. destruct (n =? 0) eqn:E; [apply Nat.eqb_eq in E; lia|].
-  destruct slots as [|l r]; [reflexivity|].
-  destruct ((0 <? n mod PAGE) && (l + n mod PAGE <=? PAGE)); reflexivity.
+  intros (D1 & B1 & F1 & C1 & P1) (D2 & B2 & F2 & C2 & P2). repeat split.
+  - intros q Hq. now rewrite D2, D1.
+  - intros b' Hb'. now rewrite B2, B1.
+  - intros f'. now rewrite F2, F1.
+  - now rewrite C2.
+  - now rewrite P2.
 Qed.
 
-Lemma put_result_inv slots n : 0 < n -> slots_inv slots ->
-  slots_inv (put_result slots n) /\ sum (put_result slots n) = sum slots + n.
+(* bufio.Write *)
+Lemma write_spec s b f path bf p : sink s b f path bf ->
+  exists s', bw_write A s b p = (s', true) /\
+    dsk A s' path = fst (bwp (dsk A s path) bf p) /\ sink s' b f path (snd (bwp (dsk A s path) bf p)) /\ frame s s' b path.
 Proof.
-  intros Hn [Hf Ha]. pose proof PAGE_pos as HP.
-  pose proof (Nat.div_mod n PAGE ltac:(lia)) as Hdm.
-  pose proof (Nat.mod_upper_bound n PAGE ltac:(lia)) as Hm.
-  unfold put_result.
-  destruct slots as [|l r].
-  - (* empty pipe *)
-    destruct (n mod PAGE =? 0) eqn:E0.
-    + apply Nat.eqb_eq in E0. cbn [app]. rewrite app_nil_r. split; [split|].
-      * apply forall_pages.
-      * rewrite <- (app_nil_r (repeat PAGE (n / PAGE))). now apply adj_pages.
-      * rewrite sum_pages. cbn. lia.
-    + apply Nat.eqb_neq in E0. rewrite app_nil_r. split; [split|].
-      * constructor; [lia | apply forall_pages].
-      * change ([n mod PAGE] ++ repeat PAGE (n / PAGE)) with (n mod PAGE :: repeat PAGE (n / PAGE)).
-        apply adj_cons.
-        -- destruct (n / PAGE); cbn; [trivial | lia].
-        -- rewrite <- (app_nil_r (repeat PAGE (n / PAGE))). now apply adj_pages.
-      * change ([n mod PAGE] ++ repeat PAGE (n / PAGE)) with (n mod PAGE :: repeat PAGE (n / PAGE)).
-        rewrite sum_cons, sum_pages. cbn. lia.
-  - inversion Hf as [|? ? Hl Hfr]; subst.
-    destruct ((0 <? n mod PAGE) && (l + n mod PAGE <=? PAGE)) eqn:Em.
-    + (* the sub-page remainder is merged into the last slot, the rest is whole pages *)
-      apply andb_true_iff in Em as [E1 E2]. apply Nat.ltb_lt in E1. apply Nat.leb_le in E2.
-      assert (Hrest : n - n mod PAGE = PAGE * (n / PAGE)) by lia.
-      rewrite Hrest.
-      replace (PAGE * (n / PAGE) mod PAGE) with 0
-        by (symmetry; rewrite Nat.mul_comm; apply Nat.mod_mul; lia).
-      replace (PAGE * (n / PAGE) / PAGE) with (n / PAGE)
-        by (symmetry; rewrite Nat.mul_comm; apply Nat.div_mul; lia).
-      cbn [Nat.eqb app]. split; [split|].
-      * apply Forall_app. split; [apply forall_pages|]. constructor; [lia | assumption].
-      * apply adj_pages; [|lia]. apply adj_cons; [|now apply adj_tl in Ha].
-        destruct r as [|b r]; [trivial|]. destruct Ha as [Hab _]. lia.
-      * rewrite sum_app, sum_pages, !sum_cons. lia.
-    + (* no merge *)
-      assert (Hnm : n mod PAGE = 0 \/ PAGE < l + n mod PAGE).
-      { apply andb_false_iff in Em as [E|E]; [apply Nat.ltb_ge in E; lia | apply Nat.leb_gt in E; lia]. }
-      destruct (n mod PAGE =? 0) eqn:E0.
-      * apply Nat.eqb_eq in E0. cbn [app]. split; [split|].
-        -- apply Forall_app. split; [apply forall_pages | assumption].
-        -- apply adj_pages; [assumption | lia].
-        -- rewrite sum_app, sum_pages. lia.
-      * apply Nat.eqb_neq in E0. split; [split|].
-        -- constructor; [lia|]. apply Forall_app. split; [apply forall_pages | assumption].
-        -- change ([n mod PAGE] ++ repeat PAGE (n / PAGE) ++ l :: r) with (n mod PAGE :: repeat PAGE (n / PAGE) ++ l :: r).
-           apply adj_cons; [|apply adj_pages; [assumption | lia]].
-           destruct (n / PAGE); cbn [repeat app]; lia.
-        -- change ([n mod PAGE] ++ repeat PAGE (n / PAGE) ++ l :: r) with (n mod PAGE :: repeat PAGE (n / PAGE) ++ l :: r).
-           rewrite sum_cons, sum_app, sum_pages. lia.
+  intros Hs. pose proof Hs as [Hb Hf]. unfold bw_write, bwp. rewrite Hb. cbn [bw_err bw_buf bw_fd].
+  destruct (length p <=? BUFSZ - length bf) eqn:E1.
+  - destruct (put_spec s b f path bf (bf ++ p) Hs) as (S1 & D1 & F1). eexists. split; [reflexivity|]. cbn [fst snd]. auto.
+  - destruct bf as [|b0 bf'].
+    + destruct (raw_spec s b f path [] p [] Hs) as (s' & R & D & S1 & F1). exists s'. cbn [fst snd]. auto.
+    + set (bf := b0 :: bf') in *. set (n := BUFSZ - length bf).
+      destruct (length (skipn n p) <=? BUFSZ) eqn:E2.
+      * destruct (raw_spec s b f path bf (bf ++ firstn n p) (skipn n p) Hs) as (s' & R & D & S1 & F1).
+        exists s'. cbn [fst snd]. auto.
+      * destruct (raw_spec s b f path bf (bf ++ firstn n p) [] Hs) as (s1 & R1 & D1 & S1 & F1).
+        rewrite R1.
+        destruct (raw_spec s1 b f path [] (skipn n p) [] S1) as (s2 & R2 & D2 & S2 & F2).
+        exists s2. cbn [fst snd]. split; [exact R2|]. split; [now rewrite D2, D1|]. split; [exact S2|].
+        exact (frame_trans _ _ _ _ _ F1 F2).
 Qed.
 
-(* a write that leaves the pipe at most half full never blocks *)
-Lemma pipe_put_fits slots n : slots_inv slots -> sum slots + n <= HALFPIPE ->
-  exists ps, pipe_put slots n = Some ps /\ slots_inv ps /\ sum ps = sum slots + n.
+(* ReadFrom with an empty buffer: straight to the file *)
+Lemma readfrom_spec s b f path p : sink s b f path [] ->
+  exists s', bw_readfrom A s b p = (s', true) /\ dsk A s' path = dsk A s path ++ p /\ sink s' b f path [] /\ frame s s' b path.
 Proof.
-  intros Hi Hs. destruct (Nat.eq_dec n 0) as [->|Hn].
-  - exists slots. cbn. repeat split; try apply Hi. lia.
-  - assert (0 < n) as Hn' by lia.
-    destruct (put_result_inv slots n Hn' Hi) as [Hinv Hsum].
-    rewrite (pipe_put_unfold slots n Hn').
-    destruct (length (put_result slots n) <=? NSLOTS) eqn:E.
-    + eauto.
-    + exfalso. apply Nat.leb_gt in E. rewrite NSLOTS_eq in E.
-      pose proof (pairs_bound _ _ (Nat.le_refl _) (proj2 Hinv)) as Hb.
-      assert (8 <= length (put_result slots n) / 2).
-      { change 8 with (16 / 2). apply Nat.div_le_mono; lia. }
-      rewrite HALFPIPE_eq in Hs. nia.
+  intros Hs. pose proof Hs as [Hb Hf]. unfold bw_readfrom. rewrite Hb. cbn [bw_err bw_buf].
+  exact (raw_spec s b f path [] p [] Hs).
+Qed.
+
+(* Flush *)
+Lemma flush_spec s b f path bf : sink s b f path bf ->
+  let s' := fst (bw_flush A s b) in
+  dsk A s' path = dsk A s path ++ bf /\ sink s' b f path [] /\ frame s s' b path.
+Proof.
+  intros Hs. pose proof Hs as [Hb Hf]. unfold bw_flush. rewrite Hb. cbn [bw_err bw_buf].
+  destruct bf as [|b0 bf'].
+  - cbn [fst]. rewrite app_nil_r. split; [reflexivity|]. split; [exact Hs|].
+    repeat split; reflexivity.
+  - destruct (raw_spec s b f path (b0 :: bf') (b0 :: bf') [] Hs) as (s' & R & D & S1 & F1).
+    rewrite R. cbn [fst]. auto.
 Qed.
 
 (* ---------------------------------------------------------------------------------------------------- *)
-(* One attempt as a tuple of byte sequences                                                               *)
+(* While an attempt runs                                                                                  *)
 (* ---------------------------------------------------------------------------------------------------- *)
-Record comps := {
-  k_dlog : bytes; k_bl : bytes;        (* log file, log buffer *)
-  k_dout : bytes; k_bo : bytes;        (* stdout: file and buffer *)
-  k_derr : bytes;                      (* stderr: file (its buffer stays empty) *)
-  k_pipe : bytes; k_ps : list nat; k_blocked : bool; k_outvar : option bytes }.
+Variable c : cfg.
 
-Definition k0 : comps :=
-  {| k_dlog := []; k_bl := []; k_dout := []; k_bo := []; k_derr := []; k_pipe := []; k_ps := []; k_blocked := false; k_outvar := None |}.
-
-Definition ebuf (c : cfg) : nat := if c_stdout c then 2 else 1.     (* id of the stderr writer / descriptor *)
-
-Definition mk (c : cfg) (k : comps) : st A :=
-  let s0 := exec_start A c (setup A c 0 (init (A := A))) in
-  {| disk := [(p_log 0, k_dlog k)] ++ (if c_stdout c then [(P_STDOUT, k_dout k)] else [])
-                                   ++ (if c_stderr c then [(P_STDERR, k_derr k)] else []);
-     fds := fds A s0; nfd := nfd A s0;
-     bufs := [(0, {| bw_buf := k_bl k; bw_fd := 0; bw_err := false |})]
-             ++ (if c_stdout c then [(1, {| bw_buf := k_bo k; bw_fd := 1; bw_err := false |})] else [])
-             ++ (if c_stderr c then [(ebuf c, {| bw_buf := []; bw_fd := ebuf c; bw_err := false |})] else []);
-     nbuf := nbuf A s0; nd := nd A s0; w_out := w_out A s0; w_err := w_err A s0; shared := shared A s0;
-     pipe := k_pipe k; pslots := k_ps k; blocked := k_blocked k; brk_o := false; brk_e := false;
-     logpath := logpath A s0; outvar := k_outvar k |}.
-
-Definition multi (c : cfg) : bool := c_output c || c_stdout c.
-
-(* the bytes of a chunk that go towards the log *)
-Definition to_log (c : cfg) (x : stream) : bool := match x with Out => true | Err => negb (c_stderr c) end.
-
-Definition simple_step (c : cfg) (k : comps) (x : stream) (p : bytes) : comps :=
-  if k_blocked k then k
-  else if to_log c x then
-    if multi c then
-      let lg := bwp (k_dlog k) (k_bl k) p in
-      let ou := if c_stdout c then bwp (k_dout k) (k_bo k) p else (k_dout k, k_bo k) in
-      if c_output c then
-        match pipe_put (k_ps k) (length p) with
-        | Some ps => {| k_dlog := fst lg; k_bl := snd lg; k_dout := fst ou; k_bo := snd ou; k_derr := k_derr k;
-                        k_pipe := k_pipe k ++ p; k_ps := ps; k_blocked := false; k_outvar := k_outvar k |}
-        | None => {| k_dlog := fst lg; k_bl := snd lg; k_dout := fst ou; k_bo := snd ou; k_derr := k_derr k;
-                     k_pipe := k_pipe k; k_ps := k_ps k; k_blocked := true; k_outvar := k_outvar k |}
-        end
-      else {| k_dlog := fst lg; k_bl := snd lg; k_dout := fst ou; k_bo := snd ou; k_derr := k_derr k;
-              k_pipe := k_pipe k; k_ps := k_ps k; k_blocked := false; k_outvar := k_outvar k |}
-    else
-      let lg := rfp (k_dlog k) (k_bl k) p in
-      {| k_dlog := fst lg; k_bl := snd lg; k_dout := k_dout k; k_bo := k_bo k; k_derr := k_derr k;
-         k_pipe := k_pipe k; k_ps := k_ps k; k_blocked := false; k_outvar := k_outvar k |}
-  else {| k_dlog := k_dlog k; k_bl := k_bl k; k_dout := k_dout k; k_bo := k_bo k; k_derr := k_derr k ++ p;
-          k_pipe := k_pipe k; k_ps := k_ps k; k_blocked := false; k_outvar := k_outvar k |}.
-
-Lemma mk_start c : exec_start A c (setup A c 0 (init (A := A))) = mk c k0.
-Proof. destruct c as [[] [] [] sc]; reflexivity. Qed.
-
-Ltac split_ifs :=
-  repeat match goal with
-  | |- context [if ?b then _ else _] =>
-      lazymatch b with
-      | true => fail | false => fail
-      | _ => let E := fresh "E" in destruct b eqn:E
-      end
-  | |- context [match ?l with [] => _ | _ :: _ => _ end] =>
-      lazymatch l with
-      | [] => fail | _ :: _ => fail
-      | _ => let E := fresh "E" in destruct l eqn:E
-      end
-  | |- context [match ?o with Some _ => _ | None => _ end] =>
-      lazymatch o with
-      | Some _ => fail | None => fail
-      | _ => let E := fresh "E" in destruct o eqn:E
-      end
-  end.
-
-Lemma step_chunk c k x p : step A c (mk c k) (AChunk A x p) = mk c (simple_step c k x p).
-Proof.
-  destruct c as [[] [] [] sc]; destruct x.
-  all: unfold step, simple_step, mk; cbn [blocked k_blocked].
-  all: destruct (k_blocked k) eqn:Eb; [destruct k; cbn [k_blocked] in Eb; subst; reflexivity|].
-  all: destruct k as [dlog bl dout bo derr pp ps blk ov]; cbn [k_blocked] in Eb; subst blk.
-  all: cbv -[BUFSZ PAGE Nat.leb Nat.sub firstn skipn length pipe_put].
-  all: split_ifs; reflexivity.
-Qed.
-
-(* ---------------------------------------------------------------------------------------------------- *)
-(* The attempt as a fold of simple_step                                                                   *)
-(* ---------------------------------------------------------------------------------------------------- *)
-Definition fold_chunks (c : cfg) (k : comps) (cs : list (chunk A)) : comps :=
-  fold_left (fun k ch => simple_step c k (fst ch) (snd ch)) cs k.
-
-Lemma exec_chunks c cs : forall k,
-  exec A c (mk c k) (map (fun ch => AChunk A (fst ch) (snd ch)) cs) = mk c (fold_chunks c k cs).
-Proof.
-  induction cs as [|ch cs IH]; intros k; [reflexivity|].
-  unfold exec, fold_chunks in *. cbn [map fold_left]. rewrite step_chunk. apply IH.
-Qed.
-
-Definition end_k (c : cfg) (k : comps) : comps :=
-  if c_output c && negb (k_blocked k)
-  then {| k_dlog := k_dlog k; k_bl := k_bl k; k_dout := k_dout k; k_bo := k_bo k; k_derr := k_derr k;
-          k_pipe := k_pipe k; k_ps := k_ps k; k_blocked := k_blocked k; k_outvar := Some (k_pipe k) |}
-  else k.
-
-Lemma exec_end_mk c k : exec_end A c (mk c k) = mk c (end_k c k).
-Proof.
-  destruct c as [[] [] [] sc]; destruct k as [dlog bl dout bo derr pp ps blk ov]; destruct blk;
-    cbv -[BUFSZ PAGE]; reflexivity.
-Qed.
-
-Lemma start_mk c : step A c (step A c (init (A := A)) (ASetup A 0)) (AStart A) = mk c k0.
-Proof. destruct c as [[] [] [] sc]; cbv -[BUFSZ PAGE]; reflexivity. Qed.
-
-Lemma run_single c cs :
-  run A c [cs] [] = step A c (step A c (mk c (fold_chunks c k0 cs)) (AEnd A)) (ATeardown A).
-Proof.
-  unfold run, program, body, insert_at. cbn [hd tl firstn skipn app].
-  unfold exec. cbn [fold_left]. rewrite start_mk.
-  rewrite !fold_left_app. cbn [fold_left]. f_equal. f_equal. exact (exec_chunks c cs k0).
-Qed.
-
-(* teardown of a running single attempt: what is buffered reaches the files *)
-Lemma teardown_obs c k : k_blocked k = false ->
-  let s := teardown A (mk c k) in
-  blocked A s = false /\ logpath A s = p_log 0 /\ dsk A s (p_log 0) = k_dlog k ++ k_bl k /\
-  (c_stdout c = true -> dsk A s P_STDOUT = k_dout k ++ k_bo k) /\
-  (c_stderr c = true -> dsk A s P_STDERR = k_derr k) /\ outvar A s = k_outvar k.
-Proof.
-  intros Hb. destruct k as [dlog bl dout bo derr pp ps blk ov]. cbn [k_blocked] in Hb. subst blk.
-  destruct c as [[] [] [] sc].
-  all: destruct bl as [|b0 bl].
-  all: destruct bo as [|o0 bo].
-  all: cbn [k_dlog k_bl k_dout k_bo k_derr k_outvar]; rewrite ?app_nil_r.
-  all: cbv -[BUFSZ PAGE].
-  all: repeat split.
-  all: try reflexivity.
-  all: intros H; try reflexivity; discriminate H.
-Qed.
-
-(* ---------------------------------------------------------------------------------------------------- *)
-(* Invariant: file ++ buffered = bytes accepted                                                           *)
-(* ---------------------------------------------------------------------------------------------------- *)
-Record kinv (c : cfg) (k : comps) (L E : bytes) : Prop := {
-  ki_blk : k_blocked k = false;
-  ki_log : k_dlog k ++ k_bl k = L;
-  ki_lbuf : length (k_bl k) <= BUFSZ;
-  ki_out : c_stdout c = true -> k_dout k ++ k_bo k = L /\ length (k_bo k) <= BUFSZ;
-  ki_err : c_stderr c = true -> k_derr k = E;
-  ki_pipe : c_output c = true -> k_pipe k = L /\ slots_inv (k_ps k) /\ sum (k_ps k) = length L;
-  ki_ov : k_outvar k = None }.
-
-Lemma kinv0 c : kinv c k0 [] [].
-Proof.
-  constructor; cbn; try reflexivity; try lia; intros _; repeat split; try reflexivity; try lia; constructor.
-Qed.
-
-Definition lpart (c : cfg) (x : stream) (p : bytes) : bytes := if to_log c x then p else [].
+Definition multi : bool := c_output c || c_stdout c.
+Definition to_log (x : stream) : bool := match x with Out => true | Err => negb (c_stderr c) end.
+Definition lpart (x : stream) (p : bytes) : bytes := if to_log x then p else [].
 Definition epart (x : stream) (p : bytes) : bytes := match x with Err => p | Out => [] end.
 
-Lemma simple_step_inv c k L E x p :
-  kinv c k L E -> (c_output c = true -> length (L ++ lpart c x p) <= HALFPIPE) ->
-  kinv c (simple_step c k x p) (L ++ lpart c x p) (E ++ epart x p).
+(* Ll / Lo / Lc: what the log sink, the stdout: sink and the capture buffer have accepted (they are the same
+   sequence between two chunks); E: what the stderr: sink has accepted; Opre / Epre: earlier attempts' content *)
+Record running (j : nat) (s : st A) (Ll Lo Lc Opre Epre E : bytes) : Prop := {
+  r_lp : logpath A s = p_log j;
+  r_bo : brk_o A s = false;
+  r_be : brk_e A s = false;
+  r_done : n_done (nd A s) = false;
+  r_wo : w_out A s = wire_out c (nd A s);
+  r_we : w_err A s = wire_err c (nd A s);
+  r_sh : shared A s = is_shared (nd A s);
+  r_log : exists lw lf bl, n_logW (nd A s) = Some lw /\ n_logF (nd A s) = Some lf /\ sink s lw lf (p_log j) bl /\
+            dsk A s (p_log j) ++ bl = Ll /\ length bl <= BUFSZ /\ (multi = false -> bl = []) /\
+            (if c_stdout c
+             then exists ow of bo, n_outW (nd A s) = Some ow /\ n_outF (nd A s) = Some of /\ ow <> lw /\
+                    sink s ow of P_STDOUT bo /\ dsk A s P_STDOUT ++ bo = Opre ++ Lo /\ length bo <= BUFSZ
+             else n_outW (nd A s) = None /\ n_outF (nd A s) = None) /\
+            (if c_stderr c
+             then exists ew ef, n_errW (nd A s) = Some ew /\ ew <> lw /\ (forall ow, n_outW (nd A s) = Some ow -> ew <> ow) /\
+                    sink s ew ef P_STDERR [] /\ dsk A s P_STDERR = Epre ++ E
+             else n_errW (nd A s) = None);
+  r_cap : c_output c = true -> capbuf A s = Lc;
+  r_future : forall i, j < i -> dsk A s (p_log i) = [] }.
+
+Lemma core_eq s s' : core s' = core s ->
+  nd A s' = nd A s /\ w_out A s' = w_out A s /\ w_err A s' = w_err A s /\ shared A s' = shared A s /\
+  brk_o A s' = brk_o A s /\ brk_e A s' = brk_e A s /\ logpath A s' = logpath A s.
+Proof. unfold core. intros H. injection H. intros. repeat split; assumption. Qed.
+
+Ltac use_core H :=
+  let N := fresh "N" in let W1 := fresh "W1" in let W2 := fresh "W2" in let SH := fresh "SH" in
+  let B1 := fresh "B1" in let B2 := fresh "B2" in let LP := fresh "LP" in
+  destruct (core_eq _ _ H) as (N & W1 & W2 & SH & B1 & B2 & LP).
+
+(* a write into the log sink *)
+Lemma upd_log j s Ll Lo Lc Opre Epre E p : multi = true -> running j s Ll Lo Lc Opre Epre E ->
+  forall lw, n_logW (nd A s) = Some lw ->
+  exists s', bw_write A s lw p = (s', true) /\ running j s' (Ll ++ p) Lo Lc Opre Epre E /\ core s' = core s.
 Proof.
-  intros [Hblk Hlog Hlb Hout Herr Hpipe Hov] Hfit.
-  unfold simple_step, lpart in *. rewrite Hblk.
-  destruct (to_log c x) eqn:Etl.
-  - (* towards the log *)
-    assert (HE : c_stderr c = true -> E ++ epart x p = E).
-    { intros Hs. destruct x; cbn; [apply app_nil_r|]. cbn in Etl. rewrite Hs in Etl. discriminate. }
-    destruct (multi c) eqn:Em.
-    + pose proof (bwp_spec (k_dlog k) (k_bl k) p Hlb) as [Hl1 Hl2].
-      assert (Ho : c_stdout c = true ->
-                   fst (if c_stdout c then bwp (k_dout k) (k_bo k) p else (k_dout k, k_bo k)) ++
-                   snd (if c_stdout c then bwp (k_dout k) (k_bo k) p else (k_dout k, k_bo k)) = L ++ p /\
-                   length (snd (if c_stdout c then bwp (k_dout k) (k_bo k) p else (k_dout k, k_bo k))) <= BUFSZ).
-      { intros Hs. rewrite Hs. destruct (Hout Hs) as [Ho1 Ho2].
-        pose proof (bwp_spec (k_dout k) (k_bo k) p Ho2) as [H1 H2]. split; [|exact H2].
-        rewrite H1, <- Ho1. now rewrite app_assoc. }
+  intros Hm [Hlp Hbo Hbe Hdn Hwo Hwe Hsh (lw & lf & bl & HlW & HlF & Hsk & Hd & Hlen & Hdir & Hout & Herr) Hcap Hfut] lw' Hlw'.
+  rewrite HlW in Hlw'. injection Hlw' as <-.
+  destruct (write_spec s lw lf (p_log j) bl p Hsk) as (s' & Hw & Hd' & Hsk' & Hfr).
+  pose proof Hfr as (FD & FB & FF & FC & FP). use_core FC.
+  destruct (bwp_spec (dsk A s (p_log j)) bl p Hlen) as [Hb1 Hb2].
+  exists s'. split; [exact Hw|]. split; [|exact FC].
+  constructor; try congruence.
+  - exists lw, lf, (snd (bwp (dsk A s (p_log j)) bl p)). rewrite N.
+    split; [exact HlW|]. split; [exact HlF|]. split; [exact Hsk'|].
+    split; [rewrite Hd', Hb1, <- Hd; now rewrite app_assoc|]. split; [exact Hb2|]. split; [congruence|].
+    split.
+    + destruct (c_stdout c); [|exact Hout].
+      destruct Hout as (ow & of & bo & H1 & H2 & H3 & H4 & H5 & H6). exists ow, of, bo.
+      split; [exact H1|]. split; [exact H2|]. split; [exact H3|].
+      split; [exact (frame_sink _ _ _ _ _ _ _ _ Hfr H3 H4)|].
+      split; [rewrite FD by (unfold p_log, P_STDOUT; lia); exact H5 | exact H6].
+    + destruct (c_stderr c); [|exact Herr].
+      destruct Herr as (ew & ef & H1 & H2 & H3 & H4 & H5). exists ew, ef.
+      split; [exact H1|]. split; [exact H2|]. split; [exact H3|].
+      split; [exact (frame_sink _ _ _ _ _ _ _ _ Hfr H2 H4)|].
+      rewrite FD by (unfold p_log, P_STDERR; lia). exact H5.
+  - intros Ho. rewrite FP. now apply Hcap.
+  - intros i Hi. rewrite FD by (unfold p_log; lia). now apply Hfut.
+Qed.
+
+(* a direct write (ReadFrom) into the log sink: only with the lone-writer wiring, where the buffer stays empty *)
+Lemma upd_log_direct j s Ll Lo Lc Opre Epre E p : multi = false -> running j s Ll Lo Lc Opre Epre E ->
+  forall lw, n_logW (nd A s) = Some lw ->
+  exists s', bw_readfrom A s lw p = (s', true) /\ running j s' (Ll ++ p) Lo Lc Opre Epre E /\ core s' = core s.
+Proof.
+  intros Hm [Hlp Hbo Hbe Hdn Hwo Hwe Hsh (lw & lf & bl & HlW & HlF & Hsk & Hd & Hlen & Hdir & Hout & Herr) Hcap Hfut] lw' Hlw'.
+  rewrite HlW in Hlw'. injection Hlw' as <-. rewrite (Hdir Hm) in *.
+  destruct (readfrom_spec s lw lf (p_log j) p Hsk) as (s' & Hw & Hd' & Hsk' & Hfr).
+  pose proof Hfr as (FD & FB & FF & FC & FP). use_core FC.
+  exists s'. split; [exact Hw|]. split; [|exact FC].
+  constructor; try congruence.
+  - exists lw, lf, []. rewrite N.
+    split; [exact HlW|]. split; [exact HlF|]. split; [exact Hsk'|].
+    split; [rewrite Hd', app_nil_r; rewrite app_nil_r in Hd; now rewrite Hd|]. split; [cbn; lia|]. split; [reflexivity|].
+    split.
+    + destruct (c_stdout c); [|exact Hout].
+      destruct Hout as (ow & of & bo & H1 & H2 & H3 & H4 & H5 & H6). exists ow, of, bo.
+      split; [exact H1|]. split; [exact H2|]. split; [exact H3|].
+      split; [exact (frame_sink _ _ _ _ _ _ _ _ Hfr H3 H4)|].
+      split; [rewrite FD by (unfold p_log, P_STDOUT; lia); exact H5 | exact H6].
+    + destruct (c_stderr c); [|exact Herr].
+      destruct Herr as (ew & ef & H1 & H2 & H3 & H4 & H5). exists ew, ef.
+      split; [exact H1|]. split; [exact H2|]. split; [exact H3|].
+      split; [exact (frame_sink _ _ _ _ _ _ _ _ Hfr H2 H4)|].
+      rewrite FD by (unfold p_log, P_STDERR; lia). exact H5.
+  - intros Ho. rewrite FP. now apply Hcap.
+  - intros i Hi. rewrite FD by (unfold p_log; lia). now apply Hfut.
+Qed.
+
+(* a write into the stdout: sink *)
+Lemma upd_out j s Ll Lo Lc Opre Epre E p : running j s Ll Lo Lc Opre Epre E ->
+  forall ow, n_outW (nd A s) = Some ow -> c_stdout c = true ->
+  exists s', bw_write A s ow p = (s', true) /\ running j s' Ll (Lo ++ p) Lc Opre Epre E /\ core s' = core s.
+Proof.
+  intros [Hlp Hbo Hbe Hdn Hwo Hwe Hsh (lw & lf & bl & HlW & HlF & Hsk & Hd & Hlen & Hdir & Hout & Herr) Hcap Hfut] ow' How' Hso.
+  rewrite Hso in Hout. destruct Hout as (ow & of & bo & H1 & H2 & H3 & H4 & H5 & H6).
+  rewrite H1 in How'. injection How' as <-.
+  destruct (write_spec s ow of P_STDOUT bo p H4) as (s' & Hw & Hd' & Hsk' & Hfr).
+  pose proof Hfr as (FD & FB & FF & FC & FP). use_core FC.
+  destruct (bwp_spec (dsk A s P_STDOUT) bo p H6) as [Hb1 Hb2].
+  exists s'. split; [exact Hw|]. split; [|exact FC].
+  constructor; try congruence.
+  - exists lw, lf, bl. rewrite N.
+    split; [exact HlW|]. split; [exact HlF|].
+    split; [exact (frame_sink _ _ _ _ _ _ _ _ Hfr (not_eq_sym H3) Hsk)|].
+    split; [rewrite FD by (unfold p_log, P_STDOUT; lia); exact Hd|]. split; [exact Hlen|]. split; [exact Hdir|].
+    split.
+    + rewrite Hso. exists ow, of, (snd (bwp (dsk A s P_STDOUT) bo p)).
+      split; [exact H1|]. split; [exact H2|]. split; [exact H3|]. split; [exact Hsk'|].
+      split; [rewrite Hd', Hb1, app_assoc, H5, <- app_assoc; reflexivity | exact Hb2].
+    + destruct (c_stderr c); [|exact Herr].
+      destruct Herr as (ew & ef & E1 & E2 & E3 & E4 & E5). exists ew, ef.
+      split; [exact E1|]. split; [exact E2|]. split; [exact E3|].
+      split; [exact (frame_sink _ _ _ _ _ _ _ _ Hfr (E3 ow H1) E4)|].
+      rewrite FD by (unfold P_STDOUT, P_STDERR; lia). exact E5.
+  - intros Ho. rewrite FP. now apply Hcap.
+  - intros i Hi. rewrite FD by (unfold p_log, P_STDOUT; lia). now apply Hfut.
+Qed.
+
+(* a direct write into the stderr: sink *)
+Lemma upd_err j s Ll Lo Lc Opre Epre E p : running j s Ll Lo Lc Opre Epre E ->
+  forall ew, n_errW (nd A s) = Some ew -> c_stderr c = true ->
+  exists s', bw_readfrom A s ew p = (s', true) /\ running j s' Ll Lo Lc Opre Epre (E ++ p) /\ core s' = core s.
+Proof.
+  intros [Hlp Hbo Hbe Hdn Hwo Hwe Hsh (lw & lf & bl & HlW & HlF & Hsk & Hd & Hlen & Hdir & Hout & Herr) Hcap Hfut] ew' Hew' Hse.
+  rewrite Hse in Herr. destruct Herr as (ew & ef & E1 & E2 & E3 & E4 & E5).
+  rewrite E1 in Hew'. injection Hew' as <-.
+  destruct (readfrom_spec s ew ef P_STDERR p E4) as (s' & Hw & Hd' & Hsk' & Hfr).
+  pose proof Hfr as (FD & FB & FF & FC & FP). use_core FC.
+  exists s'. split; [exact Hw|]. split; [|exact FC].
+  constructor; try congruence.
+  - exists lw, lf, bl. rewrite N.
+    split; [exact HlW|]. split; [exact HlF|].
+    split; [exact (frame_sink _ _ _ _ _ _ _ _ Hfr (not_eq_sym E2) Hsk)|].
+    split; [rewrite FD by (unfold p_log, P_STDERR; lia); exact Hd|]. split; [exact Hlen|]. split; [exact Hdir|].
+    split.
+    + destruct (c_stdout c); [|exact Hout].
+      destruct Hout as (ow & of & bo & H1 & H2 & H3 & H4 & H5 & H6). exists ow, of, bo.
+      split; [exact H1|]. split; [exact H2|]. split; [exact H3|].
+      split; [exact (frame_sink _ _ _ _ _ _ _ _ Hfr (not_eq_sym (E3 ow H1)) H4)|].
+      split; [rewrite FD by (unfold P_STDOUT, P_STDERR; lia); exact H5 | exact H6].
+    + rewrite Hse. exists ew, ef.
+      split; [exact E1|]. split; [exact E2|]. split; [exact E3|]. split; [exact Hsk'|].
+      rewrite Hd', E5. now rewrite app_assoc.
+  - intros Ho. rewrite FP. now apply Hcap.
+  - intros i Hi. rewrite FD by (unfold p_log, P_STDERR; lia). now apply Hfut.
+Qed.
+
+(* an append to the capture buffer *)
+Lemma upd_cap j s Ll Lo Lc Opre Epre E p : running j s Ll Lo Lc Opre Epre E ->
+  running j (set_exec A s (w_out A s) (w_err A s) (shared A s) (capbuf A s ++ p) (brk_o A s) (brk_e A s)) Ll Lo (Lc ++ p) Opre Epre E.
+Proof.
+  intros [Hlp Hbo Hbe Hdn Hwo Hwe Hsh Hlog Hcap Hfut].
+  constructor; try assumption.
+  intros Ho. cbn. now rewrite (Hcap Ho).
+Qed.
+
+Lemma running_Lo j s Ll Lo Lo' Lc Opre Epre E : c_stdout c = false -> running j s Ll Lo Lc Opre Epre E -> running j s Ll Lo' Lc Opre Epre E.
+Proof.
+  intros Hs [Hlp Hbo Hbe Hdn Hwo Hwe Hsh Hlog Hcap Hfut]. constructor; try assumption.
+  destruct Hlog as (lw & lf & bl & H). exists lw, lf, bl. now rewrite Hs in *.
+Qed.
+Lemma running_Lc j s Ll Lo Lc Lc' Opre Epre E : c_output c = false -> running j s Ll Lo Lc Opre Epre E -> running j s Ll Lo Lc' Opre Epre E.
+Proof.
+  intros Hs [Hlp Hbo Hbe Hdn Hwo Hwe Hsh Hlog Hcap Hfut]. constructor; try assumption. intros Ho. congruence.
+Qed.
+Lemma running_E j s Ll Lo Lc Opre Epre E E' : c_stderr c = false -> running j s Ll Lo Lc Opre Epre E -> running j s Ll Lo Lc Opre Epre E'.
+Proof.
+  intros Hs [Hlp Hbo Hbe Hdn Hwo Hwe Hsh Hlog Hcap Hfut]. constructor; try assumption.
+  destruct Hlog as (lw & lf & bl & H). exists lw, lf, bl. now rewrite Hs in *.
+Qed.
+
+(* one chunk *)
+Lemma deliver_running j s L Opre Epre E x p : running j s L L L Opre Epre E ->
+  running j (deliver A s x p) (L ++ lpart x p) (L ++ lpart x p) (L ++ lpart x p) Opre Epre (E ++ epart x p).
+Proof.
+  intros Hr. pose proof Hr as [Hlp Hbo Hbe Hdn Hwo Hwe Hsh (lw & lf & bl & HlW & HlF & Hsk & Hd & Hlen & Hdir & Hout & Herr) Hcap Hfut].
+  unfold deliver.
+  assert (Hbr : broken_of A s x = false).
+  { unfold broken_of. destruct x; [exact Hbo|]. destruct (shared A s); assumption. }
+  rewrite Hbr.
+  destruct (to_log x) eqn:Etl.
+  - (* towards the log: the wiring of stdout *)
+    assert (Hw : match x with Out => w_out A s | Err => w_err A s end = wire_out c (nd A s)).
+    { destruct x; [exact Hwo|]. rewrite Hwe. unfold wire_err. cbn in Etl. apply negb_true_iff in Etl.
+      rewrite Etl in Herr. now rewrite Herr. }
+    rewrite Hw. unfold lpart. rewrite Etl.
+    assert (HE : c_stderr c = true -> epart x p = []).
+    { intros Hs. destruct x; [reflexivity|]. cbn in Etl. rewrite Hs in Etl. discriminate. }
+    assert (Hfin : forall s', running j s' (L ++ p) (L ++ p) (L ++ p) Opre Epre E ->
+                   running j s' (L ++ p) (L ++ p) (L ++ p) Opre Epre (E ++ epart x p)).
+    { intros s' H. destruct (c_stderr c) eqn:Es; [now rewrite (HE eq_refl), app_nil_r | now apply (running_E _ _ _ _ _ _ _ E)]. }
+    apply Hfin. clear Hfin.
+    unfold wire_out. rewrite HlW.
+    destruct (c_stdout c) eqn:Eso.
+    + destruct Hout as (ow & of & bo & H1 & H2 & H3 & H4 & H5 & H6). rewrite H1.
+      assert (Hm : multi = true) by (unfold multi; rewrite Eso; apply orb_true_r).
+      destruct (upd_log j s L L L Opre Epre E p Hm Hr lw HlW) as (s1 & W1 & R1 & C1).
+      use_core C1.
+      assert (H1' : n_outW (nd A s1) = Some ow) by (now rewrite N).
+      destruct (upd_out j s1 (L ++ p) L L Opre Epre E p R1 ow H1' Eso) as (s2 & W2' & R2 & C2).
       destruct (c_output c) eqn:Eo.
-      * destruct (Hpipe eq_refl) as (Hp1 & Hp2 & Hp3).
-        specialize (Hfit eq_refl). rewrite app_length in Hfit.
-        destruct (pipe_put_fits (k_ps k) (length p) Hp2 ltac:(lia)) as (ps & Hput & Hpi & Hps).
-        rewrite Hput. constructor; cbn [k_blocked k_dlog k_bl k_dout k_bo k_derr k_pipe k_ps k_outvar]; try assumption; try reflexivity.
-        all: try (rewrite Hl1, <- Hlog; now rewrite app_assoc).
-        all: try (intros Hs; rewrite (HE Hs); now apply Herr).
-        intros _. split; [now rewrite Hp1 | split; [exact Hpi | rewrite Hps, Hp3, app_length; lia]].
-      * constructor; cbn [k_blocked k_dlog k_bl k_dout k_bo k_derr k_pipe k_ps k_outvar]; try assumption; try reflexivity.
-        all: try (rewrite Hl1, <- Hlog; now rewrite app_assoc).
-        all: try (intros Hs; rewrite (HE Hs); now apply Herr).
-        all: try (intros Hs; congruence).
-    + (* a lone bufio.Writer: ReadFrom *)
-      unfold multi in Em. apply orb_false_iff in Em as [Eo Es].
-      pose proof (rfp_spec (k_dlog k) (k_bl k) p Hlb) as [Hl1 Hl2].
-      constructor; cbn [k_blocked k_dlog k_bl k_dout k_bo k_derr k_pipe k_ps k_outvar]; try assumption; try reflexivity.
-      all: try (rewrite Hl1, <- Hlog; now rewrite app_assoc).
-      all: try (intros Hs; rewrite (HE Hs); now apply Herr).
-      all: try (intros Hs; congruence).
+      * cbn [app write_leaves]. rewrite W1, W2'.
+        pose proof (upd_cap j s2 _ _ _ _ _ _ p R2) as R3. exact R3.
+      * cbn [app write_leaves]. rewrite W1, W2'. now apply (running_Lc _ _ _ _ L).
+    + destruct Hout as [H1 H2]. rewrite H1.
+      destruct (c_output c) eqn:Eo.
+      * assert (Hm : multi = true) by (unfold multi; now rewrite Eo).
+        destruct (upd_log j s L L L Opre Epre E p Hm Hr lw HlW) as (s1 & W1 & R1 & C1).
+        cbn [app write_leaves]. rewrite W1.
+        pose proof (upd_cap j s1 _ _ _ _ _ _ p R1) as R3. now apply (running_Lo _ _ _ L).
+      * assert (Hm : multi = false) by (unfold multi; now rewrite Eo, Eso).
+        destruct (upd_log_direct j s L L L Opre Epre E p Hm Hr lw HlW) as (s1 & W1 & R1 & C1).
+        rewrite W1. apply (running_Lo _ _ _ L); [exact Eso|]. now apply (running_Lc _ _ _ _ L).
   - (* stderr with its own file *)
     destruct x; [discriminate|]. cbn in Etl. apply negb_false_iff in Etl.
-    rewrite app_nil_r. cbn [epart].
-    constructor; cbn [k_blocked k_dlog k_bl k_dout k_bo k_derr k_pipe k_ps k_outvar]; try assumption; try reflexivity.
-    intros _. now rewrite (Herr Etl).
+    unfold lpart. cbn [to_log]. rewrite Etl. cbn [negb epart]. rewrite app_nil_r.
+    rewrite Etl in Herr. destruct Herr as (ew & ef & E1 & E2 & E3 & E4 & E5).
+    rewrite Hwe. unfold wire_err. rewrite E1.
+    destruct (upd_err j s L L L Opre Epre E p Hr ew E1 Etl) as (s1 & W1 & R1 & C1).
+    now rewrite W1.
 Qed.
 
-Lemma log_of_cons c ch cs : log_of A c (ch :: cs) = lpart c (fst ch) (snd ch) ++ log_of A c cs.
+(* ---------------------------------------------------------------------------------------------------- *)
+(* setup                                                                                                  *)
+(* ---------------------------------------------------------------------------------------------------- *)
+(* OpenOrCreateFile + bufio.NewWriter: a fresh empty sink on `path`; nothing else changes *)
+Lemma add_sink_spec s path : exists s1 s2,
+  open A s path = (s1, nfd A s) /\ new_buf A s1 (nfd A s) = (s2, nbuf A s) /\
+  sink s2 (nbuf A s) (nfd A s) path [] /\ nfd A s2 = S (nfd A s) /\ nbuf A s2 = S (nbuf A s) /\
+  (forall b', b' <> nbuf A s -> buf A s2 b' = buf A s b') /\ (forall f', f' <> nfd A s -> fdd A s2 f' = fdd A s f') /\
+  (forall q, dsk A s2 q = dsk A s q) /\ nd A s2 = nd A s /\ logpath A s2 = logpath A s /\ outvar A s2 = outvar A s.
 Proof.
-  unfold log_of, lpart, to_log. cbn [flat_map]. destruct (fst ch); [reflexivity|]. now destruct (c_stderr c).
+  eexists. eexists. split; [reflexivity|]. split; [reflexivity|].
+  unfold sink, buf, fdd, dsk, set_bufs, set_fds, set_disk. cbn.
+  split; [split; apply mget_mset_same|].
+  repeat split; try reflexivity.
+  - intros b' Hb. now apply mget_mset_other.
+  - intros f' Hf. now apply mget_mset_other.
+  - intros q. apply mget_mset_self.
 Qed.
-Lemma err_of_cons ch cs : err_of A (ch :: cs) = epart (fst ch) (snd ch) ++ err_of A cs.
-Proof. unfold err_of, epart. cbn [flat_map]. now destruct (fst ch). Qed.
 
-Lemma fold_inv c cs : forall k L E,
-  kinv c k L E -> (c_output c = true -> length (L ++ log_of A c cs) <= HALFPIPE) ->
-  kinv c (fold_chunks c k cs) (L ++ log_of A c cs) (E ++ err_of A cs).
+Lemma sink_kept s s2 b f path bf :
+  (forall b', b' <> nbuf A s -> buf A s2 b' = buf A s b') -> (forall f', f' <> nfd A s -> fdd A s2 f' = fdd A s f') ->
+  b <> nbuf A s -> f <> nfd A s -> sink s b f path bf -> sink s2 b f path bf.
+Proof. intros HB HF Hb Hf [H1 H2]. split; [now rewrite HB | now rewrite HF]. Qed.
+
+(* the state between two attempts (j attempts have run and were torn down) *)
+Record idle (j : nat) (s : st A) (Oall Eall : bytes) : Prop := {
+  i_out : c_stdout c = false -> n_outW (nd A s) = None /\ n_outF (nd A s) = None;
+  i_errW : c_stderr c = false -> n_errW (nd A s) = None;
+  i_o : c_stdout c = true -> dsk A s P_STDOUT = Oall;
+  i_e : c_stderr c = true -> dsk A s P_STDERR = Eall;
+  i_future : forall i, j <= i -> dsk A s (p_log i) = [] }.
+
+Lemma start_running j s Oall Eall : idle j s Oall Eall ->
+  running j (exec_start A c (setup A c j s)) [] [] [] Oall Eall [].
 Proof.
-  induction cs as [|ch cs IH]; intros k L E Hk Hfit.
+  intros [Hio HieW Ho He Hfut].
+  unfold setup.
+  destruct (add_sink_spec s (p_log j)) as (s1 & s2 & E1 & E2 & K2 & NF2 & NB2 & B2 & F2 & D2 & N2 & LP2 & OV2).
+  rewrite E1, E2.
+  set (lw := nbuf A s) in *. set (lf := nfd A s) in *.
+  set (s3 := set_log A (set_nd A s2 _) (p_log j) (outvar A s2)).
+  assert (K3 : sink s3 lw lf (p_log j) []) by exact K2.
+  assert (D3 : forall q, dsk A s3 q = dsk A s q) by exact D2.
+  assert (NF3 : nfd A s3 = S lf) by exact NF2.
+  assert (NB3 : nbuf A s3 = S lw) by exact NB2.
+  assert (ND3 : n_logW (nd A s3) = Some lw /\ n_logF (nd A s3) = Some lf /\ n_done (nd A s3) = false /\
+                n_outW (nd A s3) = n_outW (nd A s) /\ n_outF (nd A s3) = n_outF (nd A s) /\ n_errW (nd A s3) = n_errW (nd A s)).
+  { subst s3. cbn. rewrite N2. repeat split; reflexivity. }
+  destruct ND3 as (G1 & G2 & G3 & G4 & G5 & G6).
+  assert (LP3 : logpath A s3 = p_log j) by reflexivity.
+  clearbody s3. clear E1 E2 K2 NF2 NB2 B2 F2 D2 N2 LP2 OV2 s1 s2.
+  (* stdout: *)
+  assert (Hst : exists s5,
+            (if c_stdout c
+             then let '(s4, f) := open A s3 P_STDOUT in
+                  let '(s4', w) := new_buf A s4 f in
+                  set_nd A s4' {| n_logW := n_logW (nd A s4'); n_outW := Some w; n_errW := n_errW (nd A s4');
+                                  n_logF := n_logF (nd A s4'); n_outF := Some f; n_done := n_done (nd A s4') |}
+             else s3) = s5 /\
+            sink s5 lw lf (p_log j) [] /\ (forall q, dsk A s5 q = dsk A s q) /\ logpath A s5 = p_log j /\
+            n_logW (nd A s5) = Some lw /\ n_logF (nd A s5) = Some lf /\ n_done (nd A s5) = false /\
+            n_errW (nd A s5) = n_errW (nd A s) /\ lw < nbuf A s5 /\ lf < nfd A s5 /\
+            (if c_stdout c
+             then exists ow of, n_outW (nd A s5) = Some ow /\ n_outF (nd A s5) = Some of /\ ow <> lw /\
+                    sink s5 ow of P_STDOUT [] /\ ow < nbuf A s5 /\ of < nfd A s5
+             else n_outW (nd A s5) = None /\ n_outF (nd A s5) = None)).
+  { destruct (c_stdout c) eqn:Eso.
+    - destruct (add_sink_spec s3 P_STDOUT) as (s4 & s4' & E1 & E2 & K4 & NF4 & NB4 & B4 & F4 & D4 & N4 & LP4 & OV4).
+      rewrite E1, E2. eexists. split; [reflexivity|].
+      assert (K : sink s4' lw lf (p_log j) []) by (apply (sink_kept s3 s4' _ _ _ _ B4 F4); [lia | lia | exact K3]).
+      split; [exact K|]. split; [intros q; cbn; change (dsk A s4' q = dsk A s q); now rewrite D4|].
+      cbn. rewrite N4, LP4, NB4, NF4. repeat split; try assumption; try lia.
+      exists (nbuf A s3), (nfd A s3). repeat split; try reflexivity; try lia; try exact K4.
+      + apply K4.
+      + apply K4.
+    - exists s3. split; [reflexivity|]. split; [exact K3|]. split; [exact D3|]. split; [exact LP3|].
+      split; [exact G1|]. split; [exact G2|]. split; [exact G3|]. split; [exact G6|]. split; [lia|]. split; [lia|].
+      split; [rewrite G4; now apply Hio | rewrite G5; now apply Hio]. }
+  destruct Hst as (s5 & E5 & K5 & D5 & LP5 & H1 & H2 & H3 & H4 & LB5 & LF5 & Hout5).
+  rewrite E5. clear E5.
+  (* stderr: *)
+  destruct (c_stderr c) eqn:Ese.
+  - destruct (add_sink_spec s5 P_STDERR) as (s6 & s6' & E1 & E2 & K6 & NF6 & NB6 & B6 & F6 & D6 & N6 & LP6 & OV6).
+    rewrite E1, E2.
+    assert (K : sink s6' lw lf (p_log j) []) by (apply (sink_kept s5 s6' _ _ _ _ B6 F6); [lia | lia | exact K5]).
+    constructor; try reflexivity.
+    + cbn. now rewrite LP6.
+    + cbn. now rewrite N6.
+    + exists lw, lf, []. cbn. rewrite N6.
+      split; [exact H1|]. split; [exact H2|]. split; [exact K|].
+      split; [change (dsk A s6' (p_log j) ++ [] = []); rewrite app_nil_r, D6, D5; apply Hfut; lia|].
+      split; [cbn; lia|]. split; [reflexivity|]. split.
+      * destruct (c_stdout c) eqn:Eso.
+        -- destruct Hout5 as (ow & of & O1 & O2 & O3 & O4 & O5 & O6). exists ow, of, [].
+           split; [exact O1|]. split; [exact O2|]. split; [exact O3|].
+           split; [apply (sink_kept s5 s6' _ _ _ _ B6 F6); [lia | lia | exact O4]|].
+           split; [change (dsk A s6' P_STDOUT ++ [] = Oall ++ []); rewrite !app_nil_r, D6, D5; now apply Ho | cbn; lia].
+        -- exact Hout5.
+      * rewrite Ese. exists (nbuf A s5), (nfd A s5).
+        split; [reflexivity|]. split; [lia|].
+        split; [intros ow Hw; destruct (c_stdout c); [destruct Hout5 as (ow' & of & O1 & O2 & O3 & O4 & O5 & O6); assert (ow = ow') by congruence; lia | destruct Hout5 as [O1 _]; rewrite O1 in Hw; discriminate]|].
+        split; [exact K6|].
+        change (dsk A s6' P_STDERR = Eall ++ []). rewrite app_nil_r, D6, D5. now apply He.
+    + intros i Hi. change (dsk A s6' (p_log i) = []). rewrite D6, D5. apply Hfut. lia.
+  - constructor; try reflexivity; try assumption.
+    + exists lw, lf, []. cbn.
+      split; [exact H1|]. split; [exact H2|]. split; [exact K5|].
+      split; [change (dsk A s5 (p_log j) ++ [] = []); rewrite app_nil_r, D5; apply Hfut; lia|].
+      split; [cbn; lia|]. split; [reflexivity|]. split.
+      * destruct (c_stdout c) eqn:Eso.
+        -- destruct Hout5 as (ow & of & O1 & O2 & O3 & O4 & O5 & O6). exists ow, of, [].
+           split; [exact O1|]. split; [exact O2|]. split; [exact O3|]. split; [exact O4|].
+           split; [change (dsk A s5 P_STDOUT ++ [] = Oall ++ []); rewrite !app_nil_r, D5; now apply Ho | cbn; lia].
+        -- exact Hout5.
+      * rewrite Ese. rewrite H4. now apply HieW.
+    + intros i Hi. change (dsk A s5 (p_log i) = []). rewrite D5. apply Hfut. lia.
+Qed.
+
+(* ---------------------------------------------------------------------------------------------------- *)
+(* the end of an attempt: the capture is read, teardown flushes and closes                                *)
+(* ---------------------------------------------------------------------------------------------------- *)
+Lemma finish_idle j s L Opre Epre E : running j s L L L Opre Epre E ->
+  let s' := teardown A (exec_end A c s) in
+  idle (S j) s' (Opre ++ L) (Epre ++ E) /\ dsk A s' (p_log j) = L /\ logpath A s' = p_log j /\
+  (c_output c = true -> outvar A s' = Some L).
+Proof.
+  intros Hr.
+  (* reading the capture changes nothing else *)
+  assert (He : exists s0, exec_end A c s = s0 /\ running j s0 L L L Opre Epre E /\ (c_output c = true -> outvar A s0 = Some L)).
+  { unfold exec_end. destruct (c_output c) eqn:Eo.
+    - eexists. split; [reflexivity|]. split; [|intros _; cbn; now rewrite (r_cap _ _ _ _ _ _ _ _ Hr Eo)].
+      destruct Hr as [Hlp Hbo Hbe Hdn Hwo Hwe Hsh Hlog Hcap Hfut]. constructor; assumption.
+    - exists s. split; [reflexivity|]. split; [exact Hr | discriminate]. }
+  destruct He as (s0 & -> & Hr0 & Hov). clear Hr.
+  destruct Hr0 as [Hlp Hbo Hbe Hdn Hwo Hwe Hsh (lw & lf & bl & HlW & HlF & Hsk & Hd & Hlen & Hdir & Hout & Herr) Hcap Hfut].
+  unfold teardown. rewrite Hdn. rewrite HlW, HlF.
+  set (s1 := set_nd A s0 _).
+  assert (K1 : sink s1 lw lf (p_log j) bl) by exact Hsk.
+  cbn [flush_opt].
+  destruct (flush_spec s1 lw lf (p_log j) bl K1) as (FD1 & FK1 & FR1).
+  set (s2 := fst (bw_flush A s1 lw)) in *.
+  pose proof FR1 as (D1 & B1 & F1 & C1 & P1). use_core C1.
+  assert (Hnd2 : nd A s2 = nd A s1) by exact N.
+  (* the stdout: writer *)
+  assert (Hs3 : exists s3, flush_opt A s2 (n_outW (nd A s0)) = s3 /\ nd A s3 = nd A s1 /\ logpath A s3 = logpath A s0 /\
+                outvar A s3 = outvar A s0 /\
+                dsk A s3 (p_log j) = L /\ (c_stdout c = true -> dsk A s3 P_STDOUT = Opre ++ L) /\
+                (c_stderr c = true -> dsk A s3 P_STDERR = Epre ++ E) /\ (forall i, j < i -> dsk A s3 (p_log i) = [])).
+  { destruct (c_stdout c) eqn:Eso.
+    - destruct Hout as (ow & of & bo & H1 & H2 & H3 & H4 & H5 & H6). rewrite H1. cbn [flush_opt].
+      assert (K2 : sink s2 ow of P_STDOUT bo) by (apply (frame_sink _ _ _ _ _ _ _ _ FR1 H3); exact H4).
+      destruct (flush_spec s2 ow of P_STDOUT bo K2) as (FD2 & FK2 & FR2).
+      pose proof FR2 as (D2 & B2' & F2 & C2 & P2).
+      destruct (core_eq _ _ C2) as (N2 & _ & _ & _ & _ & _ & LP2).
+      assert (OV2 : outvar A (fst (bw_flush A s2 ow)) = outvar A s2) by (unfold core in C2; injection C2; intros; assumption).
+      assert (OV1 : outvar A s2 = outvar A s1) by (unfold core in C1; injection C1; intros; assumption).
+      eexists. split; [reflexivity|].
+      split; [now rewrite N2|]. split; [rewrite LP2, LP; reflexivity|]. split; [rewrite OV2, OV1; reflexivity|].
+      split; [rewrite D2 by (unfold p_log, P_STDOUT; lia); rewrite FD1; exact Hd|].
+      split; [intros _; rewrite FD2, D1 by (unfold p_log, P_STDOUT; lia); exact H5|].
+      split.
+      + intros Hs. rewrite Hs in Herr. destruct Herr as (ew & ef & E1 & E2 & E3 & E4 & E5).
+        rewrite D2 by (unfold P_STDOUT, P_STDERR; lia). rewrite D1 by (unfold p_log, P_STDERR; lia). exact E5.
+      + intros i Hi. rewrite D2 by (unfold p_log, P_STDOUT; lia). rewrite D1 by (unfold p_log; lia). now apply Hfut.
+    - destruct Hout as [H1 H2]. rewrite H1. cbn [flush_opt].
+      assert (OV1 : outvar A s2 = outvar A s1) by (unfold core in C1; injection C1; intros; assumption).
+      exists s2. split; [reflexivity|]. split; [exact Hnd2|]. split; [rewrite LP; reflexivity|]. split; [rewrite OV1; reflexivity|].
+      split; [rewrite FD1; exact Hd|]. split; [discriminate|].
+      split.
+      + intros Hs. rewrite Hs in Herr. destruct Herr as (ew & ef & E1 & E2 & E3 & E4 & E5).
+        rewrite D1 by (unfold p_log, P_STDERR; lia). exact E5.
+      + intros i Hi. rewrite D1 by (unfold p_log; lia). now apply Hfut. }
+  destruct Hs3 as (s3 & -> & N3 & LP3 & OV3 & G1 & G2 & G3 & G4).
+  (* closing descriptors does not touch the files *)
+  set (s4 := close_opt A (close_opt A s3 (Some lf)) (n_outF (nd A s0))).
+  assert (D4 : forall q, dsk A s4 q = dsk A s3 q) by (intros q; subst s4; destruct (n_outF (nd A s0)); reflexivity).
+  assert (N4 : nd A s4 = nd A s3) by (subst s4; destruct (n_outF (nd A s0)); reflexivity).
+  assert (LP4 : logpath A s4 = logpath A s3) by (subst s4; destruct (n_outF (nd A s0)); reflexivity).
+  assert (OV4 : outvar A s4 = outvar A s3) by (subst s4; destruct (n_outF (nd A s0)); reflexivity).
+  cbn zeta. rewrite !D4. split; [|split; [exact G1|split; [rewrite LP4, LP3; exact Hlp | intros Ho; rewrite OV4, OV3; now apply Hov]]].
+  constructor.
+  - intros Hs. rewrite N4, N3. rewrite Hs in Hout. exact Hout.
+  - intros Hs. rewrite N4, N3. rewrite Hs in Herr. exact Herr.
+  - intros Hs. rewrite D4. now apply G2.
+  - intros Hs. rewrite D4. now apply G3.
+  - intros i Hi. rewrite D4. apply G4. lia.
+Qed.
+
+(* ---------------------------------------------------------------------------------------------------- *)
+(* all attempts                                                                                           *)
+(* ---------------------------------------------------------------------------------------------------- *)
+Lemma chunks_running j cs : forall s L Opre Epre E, running j s L L L Opre Epre E ->
+  running j (exec A c s (map (fun ch => AChunk A (fst ch) (snd ch)) cs))
+    (L ++ log_of A c cs) (L ++ log_of A c cs) (L ++ log_of A c cs) Opre Epre (E ++ err_of A cs).
+Proof.
+  induction cs as [|[x p] cs IH]; intros s L Opre Epre E Hr.
   - cbn. now rewrite !app_nil_r.
-  - unfold fold_chunks. cbn [fold_left]. fold (fold_chunks c (simple_step c k (fst ch) (snd ch)) cs).
-    rewrite log_of_cons, err_of_cons, !app_assoc.
-    apply IH.
-    + apply simple_step_inv; [exact Hk|]. intros Ho. specialize (Hfit Ho).
-      rewrite log_of_cons, app_assoc, app_length in Hfit. lia.
-    + intros Ho. specialize (Hfit Ho). now rewrite log_of_cons, app_assoc in Hfit.
+  - unfold exec. cbn [map fold_left fst snd step].
+    fold (exec A c (deliver A s x p) (map (fun ch => AChunk A (fst ch) (snd ch)) cs)).
+    replace (L ++ log_of A c ((x, p) :: cs)) with ((L ++ lpart x p) ++ log_of A c cs).
+    2:{ rewrite <- app_assoc. f_equal; try (unfold log_of, lpart, to_log; cbn [flat_map fst snd]; destruct x; [reflexivity|]; now destruct (c_stderr c)). }
+    replace (E ++ err_of A ((x, p) :: cs)) with ((E ++ epart x p) ++ err_of A cs).
+    2:{ rewrite <- app_assoc. f_equal; try (unfold err_of, epart; cbn [flat_map fst snd]; destruct x; reflexivity). }
+    apply IH. now apply deliver_running.
 Qed.
 
-(* ---------------------------------------------------------------------------------------------------- *)
-(* C12, one attempt                                                                                       *)
-(* ---------------------------------------------------------------------------------------------------- *)
-Theorem complete_single : forall c cs,
-  (c_output c = false \/ length (log_of A c cs) <= HALFPIPE) -> complete A c cs (run A c [cs] []).
+Lemma attempts_ok : forall atts j s Oall Eall, atts <> [] -> idle j s Oall Eall ->
+  let s' := exec A c s (program A j atts) in
+  dsk A s' (logpath A s') = log_of A c (last atts []) /\
+  (c_stdout c = true -> is_suffix A (log_of A c (last atts [])) (dsk A s' P_STDOUT)) /\
+  (c_stderr c = true -> is_suffix A (err_of A (last atts [])) (dsk A s' P_STDERR)) /\
+  (c_output c = true -> outvar A s' = Some (log_of A c (last atts []))).
 Proof.
-  intros c cs Hpre. rewrite run_single.
-  assert (Hk : kinv c (fold_chunks c k0 cs) (log_of A c cs) (err_of A cs)).
-  { apply (fold_inv c cs k0 [] [] (kinv0 c)). intros Ho. destruct Hpre as [H|H]; [congruence | exact H]. }
-  destruct Hk as [Hblk Hlog Hlb Hout Herr Hpipe Hov].
-  assert (Hs1 : step A c (mk c (fold_chunks c k0 cs)) (AEnd A) = mk c (end_k c (fold_chunks c k0 cs))).
-  { unfold step. cbn [blocked mk]. rewrite Hblk. apply exec_end_mk. }
-  rewrite Hs1.
-  assert (Hb' : k_blocked (end_k c (fold_chunks c k0 cs)) = false).
-  { unfold end_k. now destruct (c_output c && negb (k_blocked (fold_chunks c k0 cs))). }
-  unfold step at 1. cbn [blocked mk]. rewrite Hb'.
-  destruct (teardown_obs c _ Hb') as (T1 & T2 & T3 & T4 & T5 & _).
-  assert (Hsame : forall f : comps -> bytes,
-            (forall k v, f {| k_dlog := k_dlog k; k_bl := k_bl k; k_dout := k_dout k; k_bo := k_bo k; k_derr := k_derr k;
-                              k_pipe := k_pipe k; k_ps := k_ps k; k_blocked := k_blocked k; k_outvar := v |} = f k) ->
-            f (end_k c (fold_chunks c k0 cs)) = f (fold_chunks c k0 cs)).
-  { intros f Hf. unfold end_k. destruct (c_output c && negb (k_blocked (fold_chunks c k0 cs))); [apply Hf | reflexivity]. }
-  unfold complete. rewrite T1, T2, T3. split; [reflexivity|]. split; [|split].
-  - rewrite (Hsame k_dlog), (Hsame k_bl) by reflexivity. exact Hlog.
-  - intros Hs. exists []. rewrite (T4 Hs). rewrite (Hsame k_dout), (Hsame k_bo) by reflexivity. now destruct (Hout Hs).
-  - intros Hs. exists []. rewrite (T5 Hs). rewrite (Hsame k_derr) by reflexivity. now apply Herr.
+  induction atts as [|cs rest IH]; intros j s Oall Eall Hne Hi; [contradiction|].
+  cbn [program]. unfold body. cbn zeta.
+  unfold exec. cbn [app fold_left step].
+  rewrite <- app_assoc. rewrite fold_left_app.
+  pose proof (start_running j s Oall Eall Hi) as Hr0.
+  pose proof (chunks_running j cs _ _ _ _ _ Hr0) as Hr. cbn [app] in Hr. unfold exec in Hr.
+  match type of Hr with running _ ?st _ _ _ _ _ _ => set (s2 := st) in * end.
+  cbn [app fold_left step].
+  destruct (finish_idle j s2 _ _ _ _ Hr) as (Hid & Hlog & Hlp & Hov).
+  destruct rest as [|cs2 rest'].
+  - cbn [program fold_left last]. split; [rewrite Hlp; exact Hlog|]. split; [|split].
+    + intros Hs. exists Oall. now rewrite (i_o _ _ _ _ Hid Hs).
+    + intros Hs. exists Eall. now rewrite (i_e _ _ _ _ Hid Hs).
+    + exact Hov.
+  - change (last (cs :: cs2 :: rest') []) with (last (cs2 :: rest') []).
+    apply (IH (S j) _ _ _ ltac:(discriminate) Hid).
 Qed.
 
-(* what the `output:` variable receives (before TrimSpace): everything that went towards the log - stdout, and
-   stderr too unless a `stderr:` file is configured *)
-Theorem capture_single : forall c cs,
-  c_output c = true -> length (log_of A c cs) <= HALFPIPE ->
-  outvar A (run A c [cs] []) = Some (log_of A c cs).
+Lemma idle_init : idle 0 (init (A := A)) [] [].
+Proof. constructor; intros; try reflexivity. now split. Qed.
+
+(* C12: every configuration, every number of attempts, every chunking / interleaving and every size *)
+Theorem complete_all : forall atts, atts <> [] -> complete A c (last atts []) (run A c atts).
 Proof.
-  intros c cs Ho Hfit. rewrite run_single.
-  assert (Hk : kinv c (fold_chunks c k0 cs) (log_of A c cs) (err_of A cs)).
-  { apply (fold_inv c cs k0 [] [] (kinv0 c)). now intros _. }
-  destruct Hk as [Hblk Hlog Hlb Hout Herr Hpipe Hov].
-  assert (Hs1 : step A c (mk c (fold_chunks c k0 cs)) (AEnd A) = mk c (end_k c (fold_chunks c k0 cs))).
-  { unfold step. cbn [blocked mk]. rewrite Hblk. apply exec_end_mk. }
-  rewrite Hs1.
-  assert (Hb' : k_blocked (end_k c (fold_chunks c k0 cs)) = false).
-  { unfold end_k. now destruct (c_output c && negb (k_blocked (fold_chunks c k0 cs))). }
-  unfold step at 1. cbn [blocked mk]. rewrite Hb'.
-  destruct (teardown_obs c _ Hb') as (_ & _ & _ & _ & _ & T6).
-  rewrite T6. unfold end_k. rewrite Ho, Hblk. cbn [andb negb k_outvar]. f_equal. now destruct (Hpipe Ho).
+  intros atts Hne. destruct (attempts_ok atts 0 _ [] [] Hne idle_init) as (H1 & H2 & H3 & _).
+  unfold complete, run. auto.
+Qed.
+
+(* what the `output:` variable receives (before TrimSpace): everything of the last attempt that went towards the
+   log - its stdout, and its stderr too unless a `stderr:` file is configured - whatever its size *)
+Theorem capture_all : forall atts, atts <> [] -> c_output c = true ->
+  outvar A (run A c atts) = Some (log_of A c (last atts [])).
+Proof.
+  intros atts Hne Ho. destruct (attempts_ok atts 0 _ [] [] Hne idle_init) as (_ & _ & _ & H4). now apply H4.
 Qed.
 
 (* the log stream is an order-preserving merge of the two streams (stderr only when it is not redirected) *)
@@ -483,10 +650,10 @@ Proof. intros H. induction a as [|e a IH]; [exact H | now constructor]. Qed.
 Lemma merge_app_r x y z a : is_merge A x y z -> is_merge A x (a ++ y) (a ++ z).
 Proof. intros H. induction a as [|e a IH]; [exact H | now constructor]. Qed.
 
-Theorem log_of_merge : forall c cs,
+Theorem log_of_merge : forall cs,
   is_merge A (out_of A cs) (if c_stderr c then [] else err_of A cs) (log_of A c cs).
 Proof.
-  intros c cs. induction cs as [|[x p] cs IH]; [destruct (c_stderr c); constructor|].
+  intros cs. induction cs as [|[x p] cs IH]; [destruct (c_stderr c); constructor|].
   unfold out_of, err_of, log_of in *. cbn [flat_map fst snd]. destruct x.
   - rewrite app_nil_l. destruct (c_stderr c); now apply merge_app_l.
   - rewrite app_nil_l. destruct (c_stderr c); [exact IH | now apply merge_app_r].
@@ -495,70 +662,42 @@ Qed.
 End Proofs.
 
 (* ---------------------------------------------------------------------------------------------------- *)
-(* What the faithful model refutes                                                                        *)
+(* What remains false (C11, F11d): the captured value also contains the step's stderr                     *)
 (* ---------------------------------------------------------------------------------------------------- *)
-(* Full statement (false):
-     forall c atts lates, atts <> [] -> complete c (last atts []) (run c atts lates)
-   i.e. for every configuration, every number of attempts, every chunking and every size. *)
-
-(* F12a: a retry with a `stdout:` file (MultiWriter wiring): Node.done stays true after the first teardown,
-   the second attempt's writers are never flushed - its log is empty *)
-Lemma complete_refuted_retry_stdout : exists (c : cfg) (atts : list (list (chunk nat))) (lates : list nat),
-  atts <> [] /\ Forall (fun d => d = 0) lates /\ ~ complete nat c (last atts []) (run nat c atts lates).
-Proof.
-  exists (mkc true false false false), [[(Out, [1])]; [(Out, [2])]], [0].
-  split; [discriminate|]. split; [repeat constructor|]. intros (_ & H & _). vm_compute in H. discriminate.
-Qed.
-
-(* F12a with an `output:` variable instead of a stdout: file *)
-Lemma complete_refuted_retry_output : exists (c : cfg) (atts : list (list (chunk nat))) (lates : list nat),
-  atts <> [] /\ Forall (fun d => d = 0) lates /\ ~ complete nat c (last atts []) (run nat c atts lates).
-Proof.
-  exists (mkc false false true false), [[(Out, [1])]; [(Out, [2])]], [0].
-  split; [discriminate|]. split; [repeat constructor|]. intros (_ & H & _). vm_compute in H. discriminate.
-Qed.
-
-(* F12b: plain log-only wiring, but the stale worker of the failed attempt reaches its teardown after the next
-   attempt has been set up: it closes the new attempt's file, whose log stays empty *)
-Lemma complete_refuted_stale_teardown : exists (c : cfg) (atts : list (list (chunk nat))) (lates : list nat),
-  atts <> [] /\ c_stdout c = false /\ c_output c = false /\ ~ complete nat c (last atts []) (run nat c atts lates).
-Proof.
-  exists (mkc false false false false), [[(Out, [1])]; [(Out, [2])]], [2].
-  split; [discriminate|]. split; [reflexivity|]. split; [reflexivity|]. intros (_ & H & _). vm_compute in H. discriminate.
-Qed.
-
-(* F12c: one attempt, `output:` set, 65537 bytes in page-aligned chunks: the copy blocks for good *)
-Lemma complete_refuted_pipe : exists (c : cfg) (cs : list (chunk nat)),
-  c_output c = true /\ blocked nat (run nat c [cs] []) = true.
-Proof.
-  exists (mkc false false true false),
-    [(Out, repeat 0 (N.to_nat 32768)); (Out, repeat 0 (N.to_nat 32768)); (Out, [0])].
-  split; [reflexivity | vm_compute; reflexivity].
-Qed.
-
-(* ... and the half-pipe bound of the partial theorem is nearly sharp: 17 chunks of 2049 bytes (34833 bytes) block *)
-Lemma complete_refuted_pipe_chunking : exists (c : cfg) (cs : list (chunk nat)),
-  c_output c = true /\ N.of_nat (length (log_of nat c cs)) = 34833%N /\ blocked nat (run nat c [cs] []) = true.
-Proof.
-  exists (mkc false false true false), (repeat (Out, repeat 0 2049) 17).
-  split; [reflexivity|]. split; vm_compute; reflexivity.
-Qed.
-
-(* F11d (C11): the captured value contains the step's stderr *)
 Lemma capture_stdout_refuted : exists (c : cfg) (cs : list (chunk nat)),
-  c_output c = true /\ outvar nat (run nat c [cs] []) <> Some (out_of nat cs).
+  c_output c = true /\ outvar nat (run nat c [cs]) <> Some (out_of nat cs).
 Proof.
   exists (mkc false false true false), [(Out, [1]); (Err, [2])].
   split; [reflexivity | vm_compute; discriminate].
 Qed.
 
-(* satisfiability of the premises of complete_single / an instance *)
-Example complete_single_example :
-  let c := mkc true true true false in
-  let cs := [(Out, repeat 7 5000); (Err, [1; 2; 3]); (Out, repeat 8 3000)] in
-  (c_output c = false \/ length (log_of nat c cs) <= HALFPIPE) /\
-  dsk nat (run nat c [cs] []) (logpath nat (run nat c [cs] [])) = repeat 7 5000 ++ repeat 8 3000 /\
-  dsk nat (run nat c [cs] []) P_STDERR = [1; 2; 3].
-Proof.
-  cbv zeta. split; [right; apply Nat.leb_le; vm_compute; reflexivity|]. split; vm_compute; reflexivity.
-Qed.
+(* ---------------------------------------------------------------------------------------------------- *)
+(* The former counter-examples, now instances of complete_all                                             *)
+(* ---------------------------------------------------------------------------------------------------- *)
+(* before fix 8880f0d (Node.done was never reset) the log of the second attempt stayed empty  [F12a] *)
+Example retry_stdout_fixed :
+  let r := run nat (mkc true false false false) [[(Out, [1])]; [(Out, [2])]] in
+  dsk nat r (logpath nat r) = [2] /\ dsk nat r P_STDOUT = [1; 2].
+Proof. vm_compute. split; reflexivity. Qed.
+
+Example retry_output_fixed :
+  let r := run nat (mkc false false true false) [[(Out, [1])]; [(Out, [2])]] in
+  dsk nat r (logpath nat r) = [2] /\ outvar nat r = Some [2].
+Proof. vm_compute. split; reflexivity. Qed.
+
+(* before fix f5eca82 (the capture went through an undrained pipe) 65537 bytes blocked the step for good  [F12c] *)
+Example big_output_fixed :
+  let cs := [(Out, repeat 0 (N.to_nat 32768)); (Out, repeat 0 (N.to_nat 32768)); (Out, [0])] in
+  let r := run nat (mkc false false true false) [cs] in
+  N.of_nat (length (dsk nat r (logpath nat r))) = 65537%N /\
+  match outvar nat r with Some v => N.of_nat (length v) = 65537%N | None => False end.
+Proof. vm_compute. split; reflexivity. Qed.
+
+(* every setting on, three attempts, chunks that exercise bypass and fill-flush *)
+Example complete_all_example :
+  let c := mkc true true true true in
+  let atts := [[(Out, repeat 7 5000); (Err, [1; 2; 3]); (Out, repeat 8 3000)]; [(Out, [4])]; [(Err, [9]); (Out, repeat 5 4097); (Out, [6])]] in
+  let r := run nat c atts in
+  atts <> [] /\ dsk nat r (logpath nat r) = repeat 5 4097 ++ [6] /\ dsk nat r P_STDERR = [1; 2; 3; 9] /\
+  outvar nat r = Some (repeat 5 4097 ++ [6]).
+Proof. cbv zeta. split; [discriminate|]. vm_compute. repeat split; reflexivity. Qed.
